@@ -16,6 +16,14 @@ Theorem C27_limit : forall max st, reachable max st ->
 Proof. exact limit. Qed.
 Print Assumptions C27_limit.
 
+(* one recorded death frees one slot: after the death of c is recorded no dead() region for c is enabled,
+   whoever calls dead() (the connection's Run goroutine or a holder whose Invoke failed retryably) *)
+Theorem C27_death_recorded_once : forall max st, reachable max st ->
+  forall c, dead_in (s_conns st) c = true ->
+    step st (ERunDead c) = None /\ forall x, step st (EDeadBy x c) = None.
+Proof. exact death_recorded_once. Qed.
+Print Assumptions C27_death_recorded_once.
+
 (* a connection has at most one holder (a caller that is creating it, checking it, invoking on it,
    marking it dead or releasing it) ... *)
 Theorem C27_exclusive : forall max st, reachable max st ->
